@@ -107,6 +107,11 @@ def run(ctx):
     jobs += pjobs
     res = rf.replay_all(ctx, jobs)
     otraces = [t for c in res[:nopt] for t in c]
+    skipped = [t for t in otraces if "skip" in t]
+    ctx.cov["real_solves_that_did_not_run"] = {"count": len(skipped), "examples": [f"{t['label']}: {t['skip']}" for t in skipped[:3]]}
+    otraces = [t for t in otraces if "skip" not in t]
+    if len(skipped) > max(3, len(otraces) // 10):
+        raise core.MachineryFailure(f"C14: {len(skipped)} real solves did not run: {ctx.cov['real_solves_that_did_not_run']['examples']}")
     dtraces = [t for c in res[nopt:nopt + ndev] for t in c]
     mtraces = res[nopt + ndev:nopt + ndev + len(mcases)]
     straces = res[nopt + ndev + len(mcases):nopt + ndev + len(mcases) + len(scases)]
